@@ -5,8 +5,8 @@ from nodegen import *
 ID = "C06"
 DRIVER = "disk"
 MODEL_FILES = ["Model/Base.v", "Model/Parse.v", "Model/Node.v", "Model/Disk.v"]
-THEOREMS = []
-STRENGTH = {}
+THEOREMS = ["C06_restore_exact", "C06_restart_after_snapshot", "C06_one_snapshot", "C06_history_inv", "C06_metadata", "C06_hyps_satisfiable", "C06_version_minus_one_lost_refuted", "C06_dup_order_needs_nodup"]
+STRENGTH = {t: "proof-unbounded" for t in THEOREMS}
 RULE = ("exhaustive operation sequences (length <= 4 quick / 5 thorough) over {set, set-safe, remove, increment} x 2 keys, "
         "{snapshot false, snapshot true} (followed by the real snapshot_all_pendding_dbs) and restart (fresh Databases + load_all_dbs "
         "on the same directory), plus seeded random sequences up to 40 steps over 3 keys and 2 databases with values of 0-600 bytes "
